@@ -80,6 +80,12 @@ func pool(thorough bool) []cval {
 		{Src: "{|x| x}.bear", NonZero: true}, {Src: "m{1}.bear({a: 1})", NonZero: true}, {Src: "Int['+].bear", NonZero: true}, {Src: "{|x| x}.bear.bear({b: 2})", NonZero: true}, {Src: "<{|x| yield x}>.bear", NonZero: true},
 		// a B that does not yield true because it fails: the value counts as false in every construct alike
 		{Src: "Func", NoBang: false}, {Src: "Iter"},
+		// B held as a descendant of a function (`o.B` yields that object, not true: falsy), and B methods that themselves use
+		// a child of the same prototype as a condition (the rule applied inside the rule)
+		{Src: "{B: {|o| true}.bear({doc: 1})}"}, {Src: "{B: m{true}.bear({doc: 1})}"},
+		{Src: "{|T| T.bear({leaf: false, kid: T.bear({leaf: true})})}({B: m{return true if .leaf; (1 if .kid else 0) == 1}})"},
+		{Src: "{|T| T.bear({leaf: false, kid: T.bear({leaf: false, kid: nil})})}({B: m{return true if .leaf; (1 if .kid else 0) == 1}})"},
+		{Src: "{|T| T.bear({kid: T.bear({kid: T.bear({kid: 1})})})}({B: m{(.kid && true) == true}})"},
 		{Src: "{B: 1}"}, {Src: `{B: "yes"}`}, {Src: "{n: 3, B: m{.n}}"}, {Src: "{B: m{[3]}}.bear"}, {Src: "7.bear({B: 1})"},
 	}
 	if thorough {
